@@ -12,39 +12,39 @@ theorem guards_sites_matrices : Generated.guardSitesMatrices =
     [("Graph._check_migration_rates", 1, 1), ("Graph.migration_matrices", 4, 1)] := by decide +kernel
 
 theorem guards_context_matrices : Generated.guardContextMatrices =
-    [("guard_migration_rates", ["for (migration_matrix, end_time) in zip(mm_list, end_times)",
-        "for (j, row) in enumerate(migration_matrix)"]),
-     ("guard_matrices_break", ["for migration in self.migrations", "for (k, end_time) in enumerate(end_times)"]),
-     ("guard_matrices_active", ["for migration in self.migrations", "for (k, end_time) in enumerate(end_times)"]),
-     ("guard_matrices_occupied", ["for migration in self.migrations", "for (k, end_time) in enumerate(end_times)",
-        "if end_time < migration.start_time"])] := by decide +kernel
+    [("guard_migration_rates", ["for (v3, v4) in zip(v1, v2)",
+        "for (v5, v6) in enumerate(v3)"]),
+     ("guard_matrices_break", ["for v5 in self.migrations", "for (v7, v8) in enumerate(v1)"]),
+     ("guard_matrices_active", ["for v5 in self.migrations", "for (v7, v8) in enumerate(v1)"]),
+     ("guard_matrices_occupied", ["for v5 in self.migrations", "for (v7, v8) in enumerate(v1)",
+        "if v8 < v5.start_time"])] := by decide +kernel
 
 /-! ### the inner loop of `Graph.migration_matrices` (Model: `sweep`) -/
 
 /-- `start_time <= migration.end_time` (leave the loop: the migration has ended) -/
 theorem guard_matrices_break_meaning (start : ETime) (migEnd : Q) :
-    Generated.guard_matrices_break (start_time := Num.ofETime start) (migration_end_time := Num.fin migEnd) = true
+    Generated.guard_matrices_break (v6 := Num.ofETime start) (v5_end_time := Num.fin migEnd) = true
       ↔ start ≤ ETime.fin migEnd := by
   unfold Generated.guard_matrices_break
   cases start <;> guard_close
 
 /-- `end_time < migration.start_time` (the interval ending at `end_time` lies inside the migration) -/
 theorem guard_matrices_active_meaning (e : Q) (migStart : ETime) :
-    Generated.guard_matrices_active (end_time := Num.fin e) (migration_start_time := Num.ofETime migStart) = true
+    Generated.guard_matrices_active (v8 := Num.fin e) (v5_start_time := Num.ofETime migStart) = true
       ↔ ETime.fin e < migStart := by
   unfold Generated.guard_matrices_active
   cases migStart <;> guard_close
 
 /-- `mm_list[k][dest_id][source_id] > 0` (the cell already holds a rate) -/
 theorem guard_matrices_occupied_meaning (x : Q) :
-    Generated.guard_matrices_occupied (mm_list_k_dest_id_source_id := Num.fin x) = true ↔ x > 0 := by
+    Generated.guard_matrices_occupied (v3_v7_v10_v9 := Num.fin x) = true ↔ x > 0 := by
   unfold Generated.guard_matrices_occupied
   guard_close
 
 theorem guards_tie_sweep : sweep = sweepWith
-    (fun s e => Generated.guard_matrices_break (start_time := s) (migration_end_time := e))
-    (fun e s => Generated.guard_matrices_active (end_time := e) (migration_start_time := s))
-    (fun x => Generated.guard_matrices_occupied (mm_list_k_dest_id_source_id := x)) := by
+    (fun s e => Generated.guard_matrices_break (v6 := s) (v5_end_time := e))
+    (fun e s => Generated.guard_matrices_active (v8 := e) (v5_start_time := s))
+    (fun x => Generated.guard_matrices_occupied (v3_v7_v10_v9 := x)) := by
   funext mig src dst start es mms
   induction es generalizing start mms with
   | nil => simp only [sweep, sweepWith]
@@ -57,9 +57,9 @@ theorem guards_tie_sweep : sweep = sweepWith
       first | done | rfl
 
 theorem guards_tie_migration_matrices : migrationMatrices = migrationMatricesWith
-    (fun s e => Generated.guard_matrices_break (start_time := s) (migration_end_time := e))
-    (fun e s => Generated.guard_matrices_active (end_time := e) (migration_start_time := s))
-    (fun x => Generated.guard_matrices_occupied (mm_list_k_dest_id_source_id := x)) := by
+    (fun s e => Generated.guard_matrices_break (v6 := s) (v5_end_time := e))
+    (fun e s => Generated.guard_matrices_active (v8 := e) (v5_start_time := s))
+    (fun x => Generated.guard_matrices_occupied (v3_v7_v10_v9 := x)) := by
   funext g
   unfold migrationMatrices migrationMatricesWith
   rw [guards_tie_sweep]
@@ -70,13 +70,13 @@ is an opaque Boolean for the translator, the Model supplies `iscloseQ s 1 relTol
 tied to the source by `tables_rel_tol`) -/
 
 theorem guard_migration_rates_meaning (s : Q) (close : Bool) :
-    Generated.guard_migration_rates (sum_row := Num.fin s) (isclose_row_sum_1 := close)
+    Generated.guard_migration_rates (sum_v6 := Num.fin s) (isclose_v7_1 := close)
       = (decide (s > 1) && !close) := by
   unfold Generated.guard_migration_rates
   cases close <;> guard_close
 
 theorem guards_tie_check_migration_rates : checkMigrationRates = checkMigrationRatesWith
-    (fun s c => Generated.guard_migration_rates (sum_row := s) (isclose_row_sum_1 := c)) := by
+    (fun s c => Generated.guard_migration_rates (sum_v6 := s) (isclose_v7_1 := c)) := by
   funext g
   unfold checkMigrationRates checkMigrationRatesWith
   simp only [guard_migration_rates_meaning]
